@@ -169,6 +169,9 @@ def run(ck, facts, tier):
                          detail=paths.fmt_paths(got)[:500], sample="solve(A^T A, A^T b)" if flag == "true" else "solve(A, b)")
             except Unsupported as e:
                 ck.fail(r3, key, "rule could not be established (%s)" % e, where)
+    # "in every first and second derivative carried by A and b": the solver is generic over the number type, so the AD operator rules are necessary conditions
+    from rules import deps
+    deps.include_ad(ck, facts, tier)
     ck.not_decided += ["that Gaussian elimination with partial pivoting returns the true solution and its derivatives for all well-conditioned systems (numerical correctness)",
                        "row-order independence as executed", "each loop body is evaluated once symbolically; the update statements, not their iteration-by-iteration effect, are compared"]
     ck.trusted += ["lib/cel.py array model (read-through, ordered write lists)"]
